@@ -83,6 +83,7 @@ def run_unit(seed=None, unit=None, tier="quick", stats=None, prop=PROP):
         sim = Sim(st)
         close_after = st.weighted((3, 3, 2, 1), "sub_close_after")
         freeze = bool(st.draw(2, "sub_freeze"))
+        close_delay = bool(st.draw(2, "sub_close_delay"))
         # closing while a response is being computed is the interesting instant: the consumer
         # waits for response k in a task of its own and closes the stream from outside
         al = alloc.SimAllocator("fresh", st)
@@ -137,6 +138,10 @@ def run_unit(seed=None, unit=None, tier="quick", stats=None, prop=PROP):
             k = 0
             while True:
                 if k == close_after:
+                    if close_delay:
+                        out["waiting"] = "gate"
+                        await sim.external("close", "gate", ("value", None)).fut
+                        out["waiting"] = None
                     if freeze:
                         for e in sim.externals:
                             if e.kind in ("res", "anext", "rt", "emit") and e.is_pending():
